@@ -1,117 +1,180 @@
 ------------------------------ MODULE MC_Trig ------------------------------
-(* Bounded model of SQLTriggers (C23): base table t1(c1 INT PRIMARY KEY, c2 INT NULL, c3 INT NULL) with keys in
-   {0,1,2}; the trigger set is chosen in the initial state from the family
-     all sequences of 1..MaxTrig triggers of ONE event (constant Event) with timing before / after, body
-     audit | set NEW.c2 = COALESCE(NEW.c2,0) + 1 (before insert / update) | signal (NEW.c2 = 2, resp. OLD.c1 = 1
-     for delete), each trigger after the first created plain, FOLLOWS or PRECEDES its predecessor
-   (so every execution order of up to MaxTrig triggers per (timing, event) occurs), and statements that
-   affect up to 2 rows: INSERT of 1 or 2 rows, UPDATE SET c3 = 1 - COALESCE(c3,0) [, c2 = v] of one / all
-   rows in key order, DELETE of one / all rows in key order.
+(* Bounded models of SQLTriggers (C23) over t1, t2, t3 (each c1 INT PRIMARY KEY, c2 INT NULL, c3 INT NULL).
+
+   Event \in {"insert","update","delete"} (ordering model): the trigger set is chosen in the initial state from
+     all sequences of 1..MaxTrig single-statement triggers of ONE event on t1 with timing before / after, body
+     audit | set NEW.c2 = COALESCE(NEW.c2,0) + 1 (before insert / update) | signal (NEW.c2 = 2, resp. OLD.c1 = 1 for
+     delete), each trigger after the first created plain, FOLLOWS or PRECEDES its predecessor
+   (so every execution order of up to MaxTrig triggers per (timing, event) occurs), and statements that affect up
+   to 2 rows of t1.
+   Event = "casc" (cascade model): one trigger on t1 -- every timing x event -- whose BEGIN .. END body holds a DML
+     statement on t2 (INSERT / UPDATE / DELETE keyed by the firing row) alone, or with SET @cnt / audit statements
+     before and after it in six orders; t2 has a BEFORE trigger (SET NEW.c2 + 1, audit for DELETE) and an AFTER
+     audit trigger of the inner statement's event and, optionally (depth 2), an AFTER trigger with the body
+     INSERT INTO t3 ..; SET @cnt; t3 has BEFORE INSERT SET NEW.c2 + 1 and AFTER INSERT audit triggers.
    Properties (action properties over the statement just executed):
-     OncePerRow       a successful statement adds, for every audit trigger of its event, exactly one
+     OncePerRow       a successful statement adds, for every audit trigger of its table and event, exactly one
                       entry per affected row
-     OrderRespected   the trigger ids of the added entries are, row after row, the audit triggers in
-                      execution order: BEFORE ones (in ExecOrder), then AFTER ones (in ExecOrder)
-     FailedNoEffect   a failed statement leaves the base table unchanged and adds no audit entry
-     SetStored        after a successful INSERT of one row the stored c2 is the VALUES c2 plus the number of
-                      BEFORE INSERT set triggers                                                          *)
+     OrderRespected   (ordering model) the trigger ids of the added entries are, row after row, the audit triggers
+                      in execution order: BEFORE ones (in ExecOrder), then AFTER ones (in ExecOrder)
+     FailedNoEffect   a failed statement leaves every table unchanged and adds no audit entry
+     SetStored        (ordering model) after a successful INSERT of one row the stored c2 is the VALUES c2 plus the
+                      number of BEFORE INSERT set triggers
+     CascadeOnce      (cascade model) the triggers of t2 (and of t3) fire exactly once per row the inner statements
+                      write, wherever the DML statement stands in the body: as many AFTER-audit entries of t2 as
+                      rows of t2 inserted / changed / removed, the BEFORE assignment stored, @cnt advanced once per
+                      execution of every SET @cnt                                                              *)
 EXTENDS SQLTriggers, Json, SequencesExt
 
 CONSTANTS Event, MaxTrig
 
-VARIABLES rows, cat, act, step
-vars == <<rows, cat, act, step>>
-View0 == <<rows, cat>>
+VARIABLES db, cat, act, step
+vars == <<db, cat, act, step>>
+View0 == <<db, cat>>
 
 WB == 3
 TB1 == [cols |-> <<IntCol(TRUE), IntCol(FALSE), IntCol(FALSE)>>, checks |-> <<>>, pk |-> <<1>>, uniq |-> <<>>, rows |-> <<>>]
+Tabs == [t1 |-> TB1, t2 |-> TB1, t3 |-> TB1]
 oldc(i) == ECol(i, "none")
 newc(i) == ECol(WB + i, "none")
 Coal0(e) == [k |-> "fn", f |-> "coalesce", a |-> <<e, ELit(I(0))>>]
-BAudit == [k |-> "audit", col |-> 0, e |-> ELit(I(0))]
-BSet == [k |-> "set", col |-> 2, e |-> EOp2("plus", Coal0(newc(2)), ELit(I(1)))]
-BSignal == [k |-> "signal", col |-> 0, e |-> IF Event = "delete" THEN EOp2("eq", oldc(1), ELit(I(1))) ELSE EOp2("eq", newc(2), ELit(I(2)))]
+L0 == ELit(I(0))
+BStmt(k, col, e, t, vals, op) == [k |-> k, col |-> col, e |-> e, t |-> t, vals |-> vals, op |-> op]
+BAudit == BStmt("audit", 0, L0, "", <<>>, "")
+BUvar == BStmt("uvar", 0, L0, "", <<>>, "")
+BSet == BStmt("set", 2, EOp2("plus", Coal0(newc(2)), ELit(I(1))), "", <<>>, "")
+BSignal(ev) == BStmt("signal", 0, IF ev = "delete" THEN EOp2("eq", oldc(1), ELit(I(1))) ELSE EOp2("eq", newc(2), ELit(I(2))), "", <<>>, "")
+RowC(ev, i) == IF ev = "delete" THEN oldc(i) ELSE newc(i)
+BDml(kind, ev, t) == IF kind = "ins" THEN BStmt("ins", 0, L0, t, <<RowC(ev, 1), RowC(ev, 2), L0>>, "eq")
+                     ELSE BStmt(kind, 0, RowC(ev, 1), t, <<>>, "eq")
+MkTrig(i, table, timing, event, body, rel, other) ==
+  [name |-> "tr" \o ToString(i), tid |-> i, table |-> table, timing |-> timing, event |-> event, rel |-> rel, other |-> other, body |-> body]
 
-Bodies(timing) == {BAudit, BSignal} \cup (IF timing = "before" /\ Event # "delete" THEN {BSet} ELSE {})
-Trig(i, timing, body, rel) == [name |-> "tr" \o ToString(i), tid |-> i, timing |-> timing, event |-> Event,
-                               rel |-> IF i = 1 THEN "" ELSE rel, other |-> IF i = 1 \/ rel = "" THEN "" ELSE "tr" \o ToString(i - 1), body |-> body]
-\* FOLLOWS / PRECEDES must name a trigger of the same timing and event: the predecessor's timing is re-used then
+\* ------------------------------------------------------------------ the ordering families
+Bodies(timing) == {BAudit, BSignal(Event)} \cup (IF timing = "before" /\ Event # "delete" THEN {BSet} ELSE {})
+OTrig(i, timing, b, rel) == MkTrig(i, "t1", timing, Event, <<b>>, IF i = 1 THEN "" ELSE rel, IF i = 1 \/ rel = "" THEN "" ELSE "tr" \o ToString(i - 1))
 RECURSIVE Families(_)
 Families(n) ==
   IF n = 0 THEN {<<>>}
   ELSE LET prev == Families(n - 1) IN
-       prev \cup {Append(p, Trig(Len(p) + 1, tm, b, rel)) :
+       prev \cup {Append(p, OTrig(Len(p) + 1, tm, b, rel)) :
                     p \in {q \in prev : Len(q) = n - 1}, tm \in {"before", "after"}, b \in Bodies("before") \cup Bodies("after"), rel \in {"", "follows", "precedes"}}
-WellFormed(p) == \A i \in DOMAIN p : /\ p[i].body \in Bodies(p[i].timing)
+\* FOLLOWS / PRECEDES must name a trigger of the same timing and event
+WellFormed(p) == \A i \in DOMAIN p : /\ p[i].body[1] \in Bodies(p[i].timing)
                                       /\ (p[i].rel # "" => p[i - 1].timing = p[i].timing)
-Family == {p \in Families(MaxTrig) : p # <<>> /\ WellFormed(p)}
+OrderFamily == {p \in Families(MaxTrig) : p # <<>> /\ WellFormed(p)}
 
-KV == {I(0), I(1), I(2)}
+\* ------------------------------------------------------------------ the cascade family
+EvOf(kind) == CASE kind = "ins" -> "insert" [] kind = "upd" -> "update" [] kind = "del" -> "delete"
+CascBodies(d) == {<<d>>, <<d, BUvar>>, <<BUvar, d>>, <<d, BAudit, BUvar>>, <<BAudit, d, BUvar>>, <<BUvar, BAudit, d>>}
+Casc(tm, ev, kind, body, deep) ==
+  LET cev == EvOf(kind) IN
+  << MkTrig(1, "t1", tm, ev, body, "", ""),
+     MkTrig(11, "t2", "before", cev, <<IF cev = "delete" THEN BAudit ELSE BSet>>, "", ""),
+     MkTrig(12, "t2", "after", cev, <<BAudit>>, "", "") >>
+  \o (IF deep THEN << MkTrig(13, "t2", "after", cev, <<BDml("ins", cev, "t3"), BUvar>>, "", ""),
+                      MkTrig(14, "t3", "before", "insert", <<BSet>>, "", ""),
+                      MkTrig(15, "t3", "after", "insert", <<BAudit>>, "", "") >>
+      ELSE <<>>)
+\* (MaxTrig < 3: the quick configuration takes AFTER parents without the depth-2 part)
+CascFamily == UNION {{Casc(tm, ev, kind, body, deep) : tm \in (IF MaxTrig >= 3 THEN {"before", "after"} ELSE {"after"}),
+                                                        body \in CascBodies(BDml(kind, ev, "t2")), deep \in (IF MaxTrig >= 3 THEN BOOLEAN ELSE {FALSE})}
+                        : ev \in {"insert", "update", "delete"}, kind \in {"ins", "upd", "del"}}
+Family == IF Event = "casc" THEN CascFamily ELSE OrderFamily
+
+\* ------------------------------------------------------------------ statements
+KV == IF Event = "casc" THEN {I(0), I(1)} ELSE {I(0), I(1), I(2)}
 c1 == ECol(1, "none")
 Row(k, v) == <<Cell(ELit(k)), Cell(ELit(v)), Cell(ELit(I(0)))>>
 \* (a toggle: every designated row changes, and the column stays in {0,1})
 Bump == SetItem(3, EOp2("minus", ELit(I(1)), Coal0(ECol(3, "none"))))
 ByKey == <<Ord(1, FALSE)>>
-Stmts ==
-  CASE Event = "insert" -> {SInsert("t1", "plain", <<1, 2, 3>>, <<Row(k, v)>>, <<>>) : k \in KV, v \in {NULL, I(0), I(1)}}
-                           \cup {SInsert("t1", "plain", <<1, 2, 3>>, <<Row(k, v), Row(q, u)>>, <<>>) : k \in KV, q \in KV, v \in {I(0), I(1)}, u \in {I(0), I(1)}}
-    [] Event = "update" -> {SUpdate("t1", FALSE, <<Bump>>, w, ByKey, -1) : w \in {ETrue} \cup {EOp2("eq", c1, ELit(k)) : k \in KV}}
-                           \cup {SUpdate("t1", FALSE, <<Bump, SetItem(2, ELit(v))>>, ETrue, ByKey, -1) : v \in {I(0), I(1), I(2)}}
-    [] Event = "delete" -> {SDelete("t1", w, ByKey, -1) : w \in {ETrue} \cup {EOp2("eq", c1, ELit(k)) : k \in KV}}
-\* the other statement kinds only move the table
-Filler == {SInsert("t1", "plain", <<1, 2, 3>>, <<Row(k, v)>>, <<>>) : k \in KV, v \in {I(0), I(1)}} \cup {SDelete("t1", EOp2("eq", c1, ELit(k)), ByKey, -1) : k \in KV}
+Ins(t) == {SInsert(t, "plain", <<1, 2, 3>>, <<Row(k, v)>>, <<>>) : k \in KV, v \in {NULL, I(0), I(1)}}
+          \cup {SInsert(t, "plain", <<1, 2, 3>>, <<Row(k, v), Row(q, u)>>, <<>>) : k \in KV, q \in KV, v \in {I(0), I(1)}, u \in {I(0), I(1)}}
+Upd(t) == {SUpdate(t, FALSE, <<Bump>>, w, ByKey, -1) : w \in {ETrue} \cup {EOp2("eq", c1, ELit(k)) : k \in KV}}
+          \cup {SUpdate(t, FALSE, <<Bump, SetItem(2, ELit(v))>>, ETrue, ByKey, -1) : v \in {I(0), I(1), I(2)}}
+Del(t) == {SDelete(t, w, ByKey, -1) : w \in {ETrue} \cup {EOp2("eq", c1, ELit(k)) : k \in KV}}
+Small(t) == {SInsert(t, "plain", <<1, 2, 3>>, <<Row(k, v)>>, <<>>) : k \in KV, v \in {I(0), I(1)}} \cup {SDelete(t, EOp2("eq", c1, ELit(k)), ByKey, -1) : k \in KV}
+CascStmts == {SInsert("t1", "plain", <<1, 2, 3>>, <<Row(k, I(0))>>, <<>>) : k \in KV}
+             \cup {SInsert("t1", "plain", <<1, 2, 3>>, <<Row(I(0), I(1)), Row(I(1), I(0))>>, <<>>)}
+             \cup {SUpdate("t1", FALSE, <<Bump>>, w, ByKey, -1) : w \in {ETrue, EOp2("eq", c1, ELit(I(0)))}}
+             \cup {SDelete("t1", w, ByKey, -1) : w \in {ETrue, EOp2("eq", c1, ELit(I(1)))}}
+Stmts == CASE Event = "insert" -> Ins("t1") [] Event = "update" -> Upd("t1") [] Event = "delete" -> Del("t1") [] Event = "casc" -> CascStmts
+\* the other statements only move the tables
+Filler == IF Event = "insert" THEN {} ELSE IF Event = "casc" THEN Small("t2") ELSE Small("t1")
 
 Canon(r) == SortSeq(r, LAMBDA x, y : x[1].v < y[1].v)
 Affected(stmt, r) == IF stmt.k = "insert" THEN Len(stmt.rows) ELSE Len(Targets(TB1, r, stmt.where, stmt.order, stmt.limit))
 
 Init ==
-  /\ rows = <<>>
+  /\ db = [t \in DOMAIN Tabs |-> <<>>]
   /\ cat \in Family
-  /\ act = [stmt |-> BaseStmt, kind |-> "", class |-> "", aud |-> <<>>, n |-> 0]
+  /\ act = [stmt |-> BaseStmt, kind |-> "", class |-> "", aud |-> <<>>, n |-> 0, cnt |-> 0]
   /\ step = 0
 
+Cx == [tabs |-> Tabs, trigs |-> cat]
 Do(stmt) ==
-  LET o == TOutcome(TB1, cat, stmt, rows) IN
-  /\ rows' = Canon(o.rows)
-  /\ act' = [stmt |-> stmt, kind |-> o.kind, class |-> o.class, aud |-> o.aud, n |-> Affected(stmt, rows)]
+  LET o == TOutcome(Cx, stmt, db, 0) IN
+  /\ db' = [t \in DOMAIN Tabs |-> Canon(o.db[t])]
+  /\ act' = [stmt |-> stmt, kind |-> o.kind, class |-> o.class, aud |-> o.aud, n |-> Affected(stmt, db[stmt.t]), cnt |-> o.cnt]
   /\ step' = step + 1
   /\ UNCHANGED cat
 
-Next == \E stmt \in Stmts \cup (IF Event = "insert" THEN {} ELSE Filler) : Do(stmt)
+Next == \E stmt \in Stmts \cup Filler : Do(stmt)
 Spec == Init /\ [][Next]_vars
-\* (set triggers increment c2 at every update)
-Bounded == \A i \in DOMAIN rows : IsN(rows[i][2]) \/ rows[i][2].v <= 3
+\* (set triggers increment c2, inner updates c3)
+Bounded == \A t \in DOMAIN Tabs : \A i \in DOMAIN db[t] : /\ (IsN(db[t][i][2]) \/ db[t][i][2].v <= 3)
+                                                          /\ (IsN(db[t][i][3]) \/ db[t][i][3].v <= 2)
 
-AuditTids(timing) == LET o == ExecOrder(cat, timing, Event)
-                         a == SelectSeq(o, LAMBDA tr : tr.body.k = "audit")
+\* ------------------------------------------------------------------ properties
+TheEvent == IF Event = "casc" THEN cat[1].event ELSE Event
+AuditTids(timing) == LET o == ExecOrder(cat, "t1", timing, TheEvent)
+                         a == SelectSeq(o, LAMBDA tr : \E j \in DOMAIN tr.body : tr.body[j].k = "audit")
                      IN [i \in DOMAIN a |-> a[i].tid]
 PerRow == AuditTids("before") \o AuditTids("after")
-\* (Rep(s, n), the n-fold repetition of a sequence, comes from SQLSem)
-Judged == act'.stmt.k = Event /\ act'.kind = "ok"
+Judged == act'.stmt.t = "t1" /\ act'.stmt.k = TheEvent /\ act'.kind = "ok"
+Count(tid) == Cardinality({j \in DOMAIN act'.aud : act'.aud[j][1].v = tid})
 
-OncePerRowAct == Judged => \A i \in DOMAIN PerRow : Cardinality({j \in DOMAIN act'.aud : act'.aud[j][1].v = PerRow[i]}) = act'.n
+OncePerRowAct == Judged => \A i \in DOMAIN PerRow : Count(PerRow[i]) = act'.n
 OncePerRow == [][OncePerRowAct]_vars
-OrderRespectedAct == Judged => [j \in DOMAIN act'.aud |-> act'.aud[j][1].v] = Rep(PerRow, act'.n)
+OrderRespectedAct == (Judged /\ Event # "casc") => [j \in DOMAIN act'.aud |-> act'.aud[j][1].v] = Rep(PerRow, act'.n)
 OrderRespected == [][OrderRespectedAct]_vars
-FailedNoEffectAct == (act'.kind = "err") => (rows' = rows /\ act'.aud = <<>>)
+FailedNoEffectAct == (act'.kind = "err") => (db' = db /\ act'.aud = <<>>)
 FailedNoEffect == [][FailedNoEffectAct]_vars
-NSets == Len(SelectSeq(ExecOrder(cat, "before", "insert"), LAMBDA tr : tr.body.k = "set"))
+NSets == Len(SelectSeq(ExecOrder(cat, "t1", "before", "insert"), LAMBDA tr : tr.body[1].k = "set"))
 SetStoredAct ==
   (Judged /\ Event = "insert" /\ Len(act'.stmt.rows) = 1) =>
      LET k == act'.stmt.rows[1][1].e.v
          v == act'.stmt.rows[1][2].e.v
-         stored == CHOOSE r \in Range(rows') : r[1] = k
+         stored == CHOOSE r \in Range(db'.t1) : r[1] = k
      IN stored[2] = (IF NSets = 0 THEN v ELSE I((IF IsN(v) THEN 0 ELSE v.v) + NSets))
 SetStored == [][SetStoredAct]_vars
+
+\* rows of t that the statement inserted or changed / changed or removed
+Added(t) == Cardinality({r \in Range(db'[t]) : r \notin Range(db[t])})
+Gone(t) == Cardinality({r \in Range(db[t]) : r \notin Range(db'[t])})
+CascadeOnceAct ==
+  (Judged /\ Event = "casc") =>
+     LET kind == (CHOOSE j \in DOMAIN cat[1].body : cat[1].body[j].k \in {"ins", "upd", "del"})
+         dk == cat[1].body[kind].k
+         deep == Len(cat) > 3
+         w2 == IF dk = "ins" THEN Added("t2") ELSE Gone("t2")       \* rows of t2 the inner statements wrote
+         nU == Cardinality({j \in DOMAIN cat[1].body : cat[1].body[j].k = "uvar"})
+     IN /\ Count(12) = w2                                            \* t2's AFTER trigger: once per written row
+        /\ (dk = "del" => Count(11) = w2)                            \* t2's BEFORE DELETE audit trigger
+        /\ (dk = "ins" => \A r \in Range(db'.t2) : r \notin Range(db.t2) => ~IsN(r[2]) /\ r[2].v >= 1)   \* BEFORE SET stored
+        /\ (deep => Count(15) = w2 /\ Added("t3") = w2)              \* depth 2
+        /\ act'.cnt = act'.n * nU + (IF deep THEN w2 ELSE 0)
+CascadeOnce == [][CascadeOnceAct]_vars
 
 \* ------------------------------------------------------------------ binding A
 SimNext ==
   \E rv \in {[i \in 1..2 |-> RandomElement(step..(step + 9999))]} :
-     LET pool == IF rv[1] % 10 < 7 \/ Event = "insert" THEN Stmts ELSE Filler
+     LET pool == IF rv[1] % 10 < 7 \/ Filler = {} THEN Stmts ELSE Filler
          ss == SetToSeq(pool)
      IN Do(ss[1 + (rv[2] % Len(ss))])
 Emit == PrintT("TR " \o ToJson([step |-> step', trigs |-> cat, stmt |-> act'.stmt, kind |-> act'.kind, class |-> act'.class,
-                                 aud |-> act'.aud, post |-> rows']))
+                                 aud |-> act'.aud, cnt |-> act'.cnt, post |-> db']))
 StepBound == step < 10
-ASSUME PrintT("SC " \o ToJson([t1 |-> TB1]))
+ASSUME PrintT("SC " \o ToJson(Tabs))
 =============================================================================
